@@ -1,8 +1,82 @@
 (* C01: the normal form is idempotent (for every item, well-formed or not), provided no struct layout lists a field
    twice.  By strong induction on the size of the item. *)
 From AP.Model Require Import Prelude Bytes Vocab Pred Nlv Json Text Layout JsonTables JsonLeaf JsonCheck JsonDec JsonNorm JsonRoundCheck.
-From AP.Proofs Require Import NlvP TextP C01FlatP C01ItemP C01FieldP C01RoundP.
+From AP.Proofs Require Import NlvP TextP C01FlatP C01ItemP C01FieldP C01LeafP C01RoundP.
 Local Open Scope nat_scope.
+
+(* ------------------------------------------------------------------ the struct order of an endpoints list *)
+Definition in_eorder (f : fid) : bool := existsb (fid_beq f) endpoints_struct_order.
+Definition otl (o : option (fid * item)) : list (fid * item) := match o with Some p => [p] | None => [] end.
+
+Lemma eiso_unfold l : endpoints_in_struct_order l
+  = flat_map (fun f => otl (efind f l)) endpoints_struct_order ++ filter (fun p => negb (in_eorder (fst p))) l.
+Proof. reflexivity. Qed.
+
+Lemma fid_beq_sym a b : fid_beq a b = fid_beq b a.
+Proof.
+  destruct (fid_beq a b) eqn:E.
+  - apply fid_beq_eq in E. subst. symmetry. apply fid_beq_refl.
+  - destruct (fid_beq b a) eqn:E2; [|reflexivity]. apply fid_beq_eq in E2. subst. rewrite fid_beq_refl in E. discriminate.
+Qed.
+
+Lemma efind_app f a b : efind f (a ++ b) = match efind f a with Some p => Some p | None => efind f b end.
+Proof. unfold efind. induction a as [|x r IH]; [reflexivity|]. cbn [app find]. destruct (fid_beq (fst x) f); [reflexivity|exact IH]. Qed.
+
+Lemma efind_none f l : (forall p, In p l -> fst p <> f) -> efind f l = None.
+Proof.
+  unfold efind. induction l as [|x r IH]; intros H; [reflexivity|]. cbn [find].
+  destruct (fid_beq (fst x) f) eqn:E; [apply fid_beq_eq in E; exfalso; exact (H x (or_introl eq_refl) E)|].
+  apply IH. intros p Hp. apply H. right. exact Hp.
+Qed.
+
+(* among the first occurrences picked for the names of ord, the one for f is the first occurrence of f *)
+Lemma efind_picked l f : forall ord,
+  efind f (flat_map (fun f' => otl (efind f' l)) ord) = if existsb (fid_beq f) ord then efind f l else None.
+Proof.
+  induction ord as [|f' r IH]; [reflexivity|]. cbn [flat_map existsb]. rewrite efind_app.
+  destruct (efind f' l) as [p|] eqn:Ep; cbn [otl].
+  - destruct (efind_some _ _ _ Ep) as [_ Hfp]. subst f'. unfold efind at 1. cbn [find]. rewrite (fid_beq_sym f (fst p)).
+    destruct (fid_beq (fst p) f) eqn:E; [apply fid_beq_eq in E; rewrite <- E; cbn [orb]; symmetry; exact Ep|]. cbn [orb]. exact IH.
+  - unfold efind at 1. cbn [find]. rewrite IH. destruct (fid_beq f f') eqn:E; [|reflexivity].
+    apply fid_beq_eq in E. subst f'. cbn [orb]. rewrite Ep. destruct (existsb (fid_beq f) r); reflexivity.
+Qed.
+
+Lemma picked_in_order l ord p : In p (flat_map (fun f' => otl (efind f' l)) ord) -> existsb (fid_beq (fst p)) ord = true.
+Proof.
+  intros H. apply in_flat_map in H. destruct H as [f' [Hf' Hp]]. destruct (efind f' l) as [q|] eqn:E; [|destruct Hp].
+  destruct Hp as [<-|[]]. destruct (efind_some _ _ _ E) as [_ Hq]. apply existsb_exists. exists f'. split; [exact Hf'|].
+  rewrite Hq. apply fid_beq_refl.
+Qed.
+
+Lemma filter_filter {A} (P : A -> bool) l : filter P (filter P l) = filter P l.
+Proof.
+  induction l as [|a r IH]; [reflexivity|]. cbn [filter]. destruct (P a) eqn:E; [cbn [filter]; rewrite E, IH; reflexivity|exact IH].
+Qed.
+
+Theorem eiso_idem l : endpoints_in_struct_order (endpoints_in_struct_order l) = endpoints_in_struct_order l.
+Proof.
+  rewrite (eiso_unfold (endpoints_in_struct_order l)), (eiso_unfold l).
+  set (A := flat_map (fun f => otl (efind f l)) endpoints_struct_order).
+  rewrite filter_app, filter_filter.
+  set (Bl := filter (fun p => negb (in_eorder (fst p))) l).
+  rewrite (filter_nil _ A) by (intros p Hp; unfold in_eorder; rewrite (picked_in_order l _ p Hp); reflexivity).
+  cbn [app]. f_equal. apply flat_map_ext_in. intros f Hf. f_equal. rewrite efind_app. unfold A. rewrite efind_picked.
+  assert (Hin : existsb (fid_beq f) endpoints_struct_order = true)
+    by (apply existsb_exists; exists f; split; [exact Hf|apply fid_beq_refl]).
+  rewrite Hin. destruct (efind f l) as [p|]; [reflexivity|].
+  apply efind_none. intros p Hp Hfp. unfold Bl in Hp. apply filter_In in Hp. destruct Hp as [_ Hn].
+  unfold in_eorder in Hn. rewrite Hfp, Hin in Hn. discriminate.
+Qed.
+
+(* mapping the members commutes with putting them in struct order *)
+Lemma eiso_map (h : item -> item) l :
+  endpoints_in_struct_order (map (fun p => (fst p, h (snd p))) l) = map (fun p => (fst p, h (snd p))) (endpoints_in_struct_order l).
+Proof.
+  rewrite !eiso_unfold, map_app. f_equal.
+  - induction endpoints_struct_order as [|f r IH]; [reflexivity|]. cbn [flat_map]. rewrite map_app, IH. f_equal.
+    rewrite efind_map. destruct (efind f l); reflexivity.
+  - induction l as [|x r IH]; [reflexivity|]. cbn [map filter fst]. destruct (negb (in_eorder (fst x))); [cbn [map]; rewrite IH; reflexivity|exact IH].
+Qed.
 
 Section NormIdem.
   Variable layout_of : kind -> list fdecl.
@@ -105,6 +179,11 @@ Section NormIdem.
           pose proof (size_in_list l x Hx). cbn [fval_size] in Hsz. lia.
         * change (nrmv (FNlv l)) with (FNlv (norm_nlv l)). change (nrmv (FNlv (norm_nlv l))) with (FNlv (norm_nlv (norm_nlv l))).
           rewrite norm_nlv_idem. reflexivity.
+        * change (nrmv (FSource mt c)) with (FSource mt (norm_nlv c)).
+          change (nrmv (FSource mt (norm_nlv c))) with (FSource mt (norm_nlv (norm_nlv c))). rewrite norm_nlv_idem. reflexivity.
+        * destruct e as [e|]; [|reflexivity]. rewrite (norm_endpoints layout_of e), (norm_endpoints layout_of).
+          f_equal. f_equal. rewrite <- eiso_map, eiso_idem. f_equal. rewrite map_map. apply map_ext_in. intros q Hq. cbn [fst snd].
+          f_equal. apply IH. pose proof (size_endpoints_in e q Hq). lia.
       + (* list *)
         destruct l as [|x [|y r]].
         * reflexivity.
